@@ -1,7 +1,10 @@
 /-
-Model of `datacake-node/src/lib.rs: watch_membership_changes`, of the latest-value channel
-(`tokio::sync::watch`) its deltas are published on, and of a subscriber that applies each delta it
-is handed (`left` removed, then `joined` inserted — `distributor.rs` / `poller.rs`).
+Model of `datacake-node/src/lib.rs: watch_membership_changes` / `membership_delta`, of the
+latest-value channel (`tokio::sync::watch`) the processed snapshots are published on, of the
+per-subscriber `MembershipChanges` stream that turns them into deltas, and of a subscriber that
+applies each delta it is handed (`left` removed, then `joined` inserted — `distributor.rs` /
+`poller.rs`).  `ChanLegacy`/`SubLegacy` are the tree before the `fix:` commit for D9 (the deltas
+themselves travelled on the latest-value channel).
 
 A member is `(id, addr)`; a snapshot is the membership map as a list of members with distinct ids
 (the local node included).  `watchStep` is the current tree (after the `fix:` commit for D8: a
@@ -60,18 +63,9 @@ def watchStepLegacy (w : Watcher) (snap : Snapshot) : Delta × Watcher :=
   let joined := (diffSet newSet w.lastSet).filterMap (fun m => lookupId snap m.1)
   (⟨joined, left⟩, { w with lastSet := newSet, lastSnap := snap })
 
-/-- `tokio::sync::watch`: only the latest value is kept, with a version counter. -/
-structure Chan where
-  version : Nat := 0
-  value : Delta := Delta.empty
-
-def Chan.send (c : Chan) (d : Delta) : Chan := ⟨c.version + 1, d⟩
-
-/-- A subscriber (`WatchStream::new(rx)` + the `live_members` map of distributor/poller).
-`seen = none` until the first poll: the stream starts by yielding the current value. -/
-structure Sub where
-  seen : Option Nat := none
-  live : List Member := []      -- id ↦ addr, distinct ids
+/-- `membership_delta(self, last, new)`: what left and what joined between two snapshots. -/
+def delta (self : Nat) (last snap : Snapshot) : Delta :=
+  (watchStep { self := self, lastSet := networkSet self last, lastSnap := last } snap).1
 
 def removeId (l : List Member) (id : Nat) : List Member := l.filter (fun m => m.1 ≠ id)
 
@@ -80,8 +74,43 @@ def applyDelta (live : List Member) (d : Delta) : List Member :=
   let l1 := d.left.foldl (fun l m => removeId l m.1) live
   d.joined.foldl (fun l m => removeId l m.1 ++ [m]) l1
 
-/-- One poll of the subscriber's stream: yields the channel's value if not yet seen. -/
-def Sub.poll (s : Sub) (c : Chan) : Option Delta × Sub :=
+/-- `tokio::sync::watch`: only the latest value is kept, with a version counter.  The node's
+watcher publishes the membership snapshot it has just processed. -/
+structure Chan where
+  version : Nat := 0
+  value : Snapshot := []
+
+def Chan.send (c : Chan) (snap : Snapshot) : Chan := ⟨c.version + 1, snap⟩
+
+/-- A subscriber: the `MembershipChanges` stream (`WatchStream` over the snapshot channel + the
+snapshot it handed out last) and the `live_members` map of distributor/poller.
+`seen = none` until the first poll: the stream starts by yielding the current value. -/
+structure Sub where
+  seen : Option Nat := none
+  last : Snapshot := []
+  live : List Member := []      -- id ↦ addr, distinct ids
+
+/-- One poll of the subscriber's stream: if the channel holds a value not yet seen, the stream
+yields the difference between the snapshot it handed out last and that value. -/
+def Sub.poll (self : Nat) (s : Sub) (c : Chan) : Option Delta × Sub :=
+  if s.seen = some c.version then (none, s)
+  else
+    let d := delta self s.last c.value
+    (some d, { seen := some c.version, last := c.value, live := applyDelta s.live d })
+
+/-! ### The tree before the `fix:` commit for D9: deltas on the latest-value channel -/
+
+structure ChanLegacy where
+  version : Nat := 0
+  value : Delta := Delta.empty
+
+def ChanLegacy.send (c : ChanLegacy) (d : Delta) : ChanLegacy := ⟨c.version + 1, d⟩
+
+structure SubLegacy where
+  seen : Option Nat := none
+  live : List Member := []
+
+def SubLegacy.poll (s : SubLegacy) (c : ChanLegacy) : Option Delta × SubLegacy :=
   if s.seen = some c.version then (none, s)
   else (some c.value, { seen := some c.version, live := applyDelta s.live c.value })
 
